@@ -28,6 +28,7 @@ type Case struct {
 	Obs    Outcome      `json:"obs"`
 	Incons string       `json:"incons,omitempty"`
 	Class  string       `json:"class"`
+	V      *VCase       `json:"v,omitempty"` // vector families (vector.go)
 }
 
 // ---- Coq real literals --------------------------------------------------------
@@ -110,6 +111,9 @@ func obsCoq(f *Fam, o Outcome) string {
 
 // the proposition certified for one case
 func caseCoq(f *Fam, c Case) string {
+	if c.V != nil {
+		return vcaseCoq(c.Fam, *c.V, c.Obs)
+	}
 	var hyps []string
 	seen := map[string]bool{}
 	if c.Obs.Kind != "ctorerr" {
@@ -159,7 +163,7 @@ func caseCoq(f *Fam, c Case) string {
 	return sb.String()
 }
 
-const shardHeader = "From Coq Require Import Reals ZArith List. Import ListNotations.\nFrom ADV Require Import C14.ER C14.Model C14.Corr.\nOpen Scope R_scope.\nGoal True.\n"
+const shardHeader = "From Coq Require Import Reals ZArith List. Import ListNotations.\nFrom ADV Require Import C14.ER C14.Model C14.VModel C14.Corr.\nOpen Scope R_scope.\nGoal True.\n"
 
 func writeShards(dir, stem string, props []string, per int) (int, error) {
 	if err := os.MkdirAll(dir, 0755); err != nil {
@@ -232,6 +236,10 @@ func genCase(f *Fam, r *Rng) Case {
 }
 
 func rerun(c Case) (Case, *Fam) {
+	if c.V != nil {
+		c.Obs, c.Incons = vecEvalAll(c.Fam, c.V)
+		return c, nil
+	}
 	f := famByName(c.Fam)
 	if f == nil {
 		Die("unknown family %s", c.Fam)
@@ -304,6 +312,23 @@ func main() {
 	for k := 0; len(cases) < o.N+hist["corpus"]; k++ {
 		f := &families[k%len(families)]
 		add(genCase(f, rng.Split()), f, "")
+	}
+	// vector families: d = 1..4 in turn (odd and even), Float64 and Real64 parameters
+	nv := o.N / 6
+	vr := NewRng(o.Seed + 15485863)
+	for k := 0; k < nv; k++ {
+		fam, vc := genVCase(k, vr.Split())
+		obs, inc := vecEvalAll(fam, &vc)
+		c := Case{Fam: fam, Fn: "LogPdf", Obs: obs, Incons: inc, Class: "valid-params:" + obs.Kind, V: &vc}
+		cases = append(cases, c)
+		props = append(props, caseCoq(nil, c))
+		hist["family:"+fam]++
+		hist[fmt.Sprintf("vector-dim:%d", len(vc.X))]++
+		hist["outcome:"+c.Class]++
+		if inc != "" {
+			incons = append(incons, c)
+		}
+		nontriv[fmt.Sprintf("%s/%v", fam, vc)] = true
 	}
 	per := 40
 	nsh, err := writeShards(o.Out, "cases", props, per)
